@@ -178,6 +178,13 @@ def one(ctx, dev, kw, k, N, thermal, out_mode, inj: dict, dt=1e-2, with_model=Tr
             fail("cancel-propagates", "KeyboardInterrupt inside update propagated instead of returning a partial solution")
         if not in_sim and result is not None:
             fail("cancel-thermal-returns", "cancellation during thermalisation returned a solution")
+    if fired and inj["kind"] == "interrupt" and inj.get("fcall") is not None:
+        # Ctrl-C while a frame is being written.  Frames at multiples of save_every are written inside the loop, where Ctrl-C is a
+        # cancellation like any other (partial solution, or None when nothing has been recorded); only the final partial frame
+        # is written after the loop (Lean: runStageF / finalSave)
+        in_loop = inj["fcall"] < len([i for i in range(N + 1) if i % k == 0])
+        if in_loop and isinstance(raised, KeyboardInterrupt):
+            fail("cancel-in-frame-writer-propagates", f"Ctrl-C while frame #{inj['fcall']} was being written ({inj.get('phase')}) propagated out of solve() instead of cancelling the run")
     # ---------------- aftermath on disk ----------------
     if out_mode == "none":
         left = set(os.listdir(tempfile.gettempdir())) - tmp_before
